@@ -133,7 +133,7 @@ fn has_boundary(spec: &Spec, n: usize, m: usize) -> bool {
         Spec::Tournament(k) => *k == n || *k == n + 1,
         Spec::Lexicase(c) => *c == m || *c == m + 1 || *c == 0,
         Spec::Weighted(w) => w.total() == 0 || wb(w, n, m),
-        Spec::Dyn(l) => l.iter().any(|(s, w)| *w == 0 || has_boundary(s, n, m)),
+        Spec::Dyn(l) | Spec::DynGrown(l) => l.iter().any(|(s, w)| *w == 0 || has_boundary(s, n, m)),
         Spec::Ref(s) | Spec::Erased(s) => has_boundary(s, n, m),
         _ => false,
     }
@@ -187,6 +187,7 @@ pub fn spec_strategy(n_hint: usize, m_hint: usize, depth: u32) -> BoxedStrategy<
         prop_oneof![
             4 => wtree.prop_map(Spec::Weighted),
             3 => prop::collection::vec((inner.clone(), dweight()), 1..4).prop_map(Spec::Dyn),
+            2 => prop::collection::vec((inner.clone(), dweight()), 2..4).prop_map(Spec::DynGrown),
             1 => inner.clone().prop_map(|s| Spec::Ref(Box::new(s))),
             2 => inner.prop_map(|s| Spec::Erased(Box::new(s))),
         ]
@@ -251,7 +252,7 @@ pub fn strategy(max_n: usize) -> BoxedStrategy<Case> {
 }
 
 pub fn run(ctx: &mut Ctx) {
-    ctx.rule = "populations of 0..12 individuals with ragged / all-equal / duplicate-laden result vectors (Score and Error polarity); selector spec trees (depth <= 4) over Best, Worst, Random, Tournament(k around n), Lexicase(c around the result count), static WeightedPair trees, DynWeighted lists, references and erased boxes, weights incl. 0 and u32::MAX; generated random stream, 1-3 draws per selector value, in a quarter of the cases alternating between two populations of different sizes and result counts. Oracle: pointer identity with an element of the population; errors only of the four documented kinds and only when a small model of the spec justifies them; must-fail configurations must fail. non-trivial = composite depth >= 2 or a boundary configuration; distinct by JSON encoding".into();
+    ctx.rule = "populations of 0..12 individuals with ragged / all-equal / duplicate-laden result vectors (Score and Error polarity); selector spec trees (depth <= 4) over Best, Worst, Random, Tournament(k around n), Lexicase(c around the result count), static WeightedPair trees, DynWeighted lists (also lists that were used for a selection while still being built), references and erased boxes, weights incl. 0 and u32::MAX; generated random stream, 1-3 draws per selector value, in a quarter of the cases alternating between two populations of different sizes and result counts. Oracle: pointer identity with an element of the population; errors only of the four documented kinds and only when a small model of the spec justifies them; must-fail configurations must fail. non-trivial = composite depth >= 2 or a boundary configuration; distinct by JSON encoding".into();
     ctx.assumptions.push("with more configured lexicase cases than results, Ok(member) is also accepted (the filter may reach one survivor first)".into());
     let n = ctx.tier.pick(300_000u32, 6_000_000);
     ctx.run_prop("selections", n, || strategy(12), oracle);
